@@ -1454,7 +1454,9 @@ Qed.
 
 Lemma recv_cer_g n cid m : gres nodial n (recv_cer n cid m).
 Proof.
-  unfold recv_cer. destruct (pres_get (m_origin m)) as [host|]; [|apply gres_refl].
+  unfold recv_cer. destruct (get_conn n cid) as [c0|]; [|apply gres_refl].
+  destruct (negb (cstate_eqb (c_state c0) SConnected)); [apply gres_refl|].
+  destruct (pres_get (m_origin m)) as [host|]; [|apply gres_refl].
   destruct (get_peer n host) as [p|].
   - cbv zeta.
     set (n0 := set_conns n (upd_conn (n_conns n) cid (fun c =>
@@ -1569,6 +1571,31 @@ Proof.
     right. split; [reflexivity|apply zz_eq, Hm].
 Qed.
 
+(* adding a pair under a host and removing it from that host again leaves nothing new *)
+Lemma pw_has_remove_add pw host k0 h k :
+  pw_has (pw_remove (pw_add pw host k0) host k0) h k -> pw_has pw h k.
+Proof.
+  intros H.
+  assert (Hne : ~ (h = host /\ k = k0)).
+  { intros [-> ->]. unfold pw_has, pw_remove in H. destruct H as [l [Hin Hm]].
+    apply List.in_map_iff in Hin. destruct Hin as [[h1 l1] [E Hin]]. cbn [fst snd] in E.
+    destruct (String.eqb h1 host) eqn:Eh.
+    - injection E as _ <-. rewrite mem_zz_remove_zz in Hm. discriminate.
+    - injection E as E1 _. apply String.eqb_neq in Eh. congruence. }
+  apply pw_has_remove, pw_has_add in H. destruct H as [H|H]; [exact H|contradiction].
+Qed.
+
+(* an answer sent on a present connection takes its pair out of the list of the connection's host;
+   nothing else happens to the waiting lists *)
+Lemma send_message_answer_pw n cid a c :
+  o_req a = false -> get_conn n cid = Some c ->
+  n_peer_waiting (fst (send_message n cid a)) = pw_remove (n_peer_waiting n) (c_host c) (o_hbh a, o_e2e a).
+Proof.
+  intros Hq Hc. unfold send_message, queue_out. rewrite Hq, Hc. cbn [fst]. unfold record_answer.
+  match goal with |- context [List.find ?f (n_origin_waiting ?x)] => destruct (List.find f (n_origin_waiting x)) as [[[a0 b0] o0]|] end;
+    reflexivity.
+Qed.
+
 (* result of the reader thread for the frames ms: the peer table and the connection counter are
    framed, nothing is dialled, and a new waiting pair comes with a delivery of one of the frames *)
 Definition dres (ms : list msg) (n : node) (r : node * list output) : Prop :=
@@ -1607,13 +1634,47 @@ Proof.
   unfold recv_app_request. intros Hr Hno Hyes.
   assert (S : forall r, send_message n cid r = (n', outs) -> False).
   { intros r E. pose proof (send_message_frame n cid r) as [_ F]. rewrite E in F. exact (Hno (F _ _ Hyes)). }
-  destruct (get_conn n cid) as [c|]; [|injection Hr as <- <-; contradiction].
+  destruct (get_conn n cid) as [c|] eqn:Hc; [|injection Hr as <- <-; contradiction].
   destruct (m_drealm m) as [| |realm]; try (exfalso; eapply S; eassumption).
   destruct (route_lookup n realm) as [entries|]; [|exfalso; eapply S; eassumption].
   destruct (List.find _ entries) as [[[i|] l]|]; try (exfalso; eapply S; eassumption).
-  injection Hr as <- <-. cbn [n_peer_waiting set_waiting] in Hyes.
-  apply pw_has_add in Hyes. destruct Hyes as [Hyes|[-> ->]]; [contradiction|].
-  exists c, i. repeat split.
+  destruct (handler_raises m).
+  - (* the handler raises: the 5012 answer takes the pair out again, nothing new remains *)
+    exfalso. cbv zeta in Hr.
+    match type of Hr with context [send_message ?x cid ?a] =>
+      pose proof (send_message_answer_pw x cid a c eq_refl Hc) as E; destruct (send_message x cid a) as [n2 o] end.
+    injection Hr as <- <-. cbn [fst] in E. rewrite E in Hyes. cbn [n_peer_waiting set_waiting answer_of o_hbh o_e2e] in Hyes.
+    apply pw_has_remove_add in Hyes. contradiction.
+  - injection Hr as <- <-. cbn [n_peer_waiting set_waiting] in Hyes.
+    apply pw_has_add in Hyes. destruct Hyes as [Hyes|[-> ->]]; [contradiction|].
+    exists c, i. repeat split.
+Qed.
+
+(* ... and when the application's handler raises, the request is delivered and answered 5012 on the
+   same connection, and no pair is left behind *)
+Theorem C09_raise_leaves_no_entry n cid m n' outs :
+  recv_app_request n cid m = (n', outs) -> handler_raises m = true ->
+  (forall h k, pw_has (n_peer_waiting n') h k -> pw_has (n_peer_waiting n) h k) /\
+  (forall i, List.In (ODeliver i m) outs -> outs = [ODeliver i m; OQueue cid (answer_of m (Some RC_UNABLE) [])]).
+Proof.
+  unfold recv_app_request. intros Hr Hh.
+  assert (S : forall r, send_message n cid r = (n', outs) ->
+              (forall h k, pw_has (n_peer_waiting n') h k -> pw_has (n_peer_waiting n) h k) /\
+              (forall i, List.In (ODeliver i m) outs -> outs = [ODeliver i m; OQueue cid (answer_of m (Some RC_UNABLE) [])])).
+  { intros r E. pose proof (send_message_frame n cid r) as [_ F]. pose proof (send_message_out n cid r) as O.
+    rewrite E in F, O. cbn [fst snd] in F, O. split; [exact F|]. subst outs. intros i [H|[]]. discriminate. }
+  destruct (get_conn n cid) as [c|] eqn:Hc; [|injection Hr as <- <-; split; [intros h k H; exact H|intros i []]].
+  destruct (m_drealm m) as [| |realm]; try (eapply S; eassumption).
+  destruct (route_lookup n realm) as [entries|]; [|eapply S; eassumption].
+  destruct (List.find _ entries) as [[[i|] l]|]; try (eapply S; eassumption).
+  rewrite Hh in Hr. cbv zeta in Hr.
+  match type of Hr with context [send_message ?x cid ?a] =>
+    pose proof (send_message_answer_pw x cid a c eq_refl Hc) as E; pose proof (send_message_out x cid a) as O;
+    destruct (send_message x cid a) as [n2 o] end.
+  injection Hr as <- <-. cbn [fst snd] in E, O. subst o. split.
+  - intros h k H. rewrite E in H. cbn [n_peer_waiting set_waiting answer_of o_hbh o_e2e] in H.
+    eapply pw_has_remove_add, H.
+  - intros j [H|[H|[]]]; [injection H as <-; reflexivity|discriminate].
 Qed.
 
 Lemma recv_app_request_d n cid m : dres [m] n (recv_app_request n cid m).
@@ -1625,10 +1686,22 @@ Proof.
   destruct (m_drealm m) as [| |realm]; try apply S.
   destruct (route_lookup n realm) as [entries|]; [|apply S].
   destruct (List.find _ entries) as [[[i|] l]|]; try apply S.
-  split; [apply frame0_same; reflexivity|]. split; [constructor; [exact I|constructor]|].
-  cbn [fst snd n_peer_waiting set_waiting]. intros h k H. apply pw_has_add in H.
-  destruct H as [H|[_ ->]]; [left; exact H|]. right. exists i, m. split; [left; reflexivity|].
-  split; [left; reflexivity|reflexivity].
+  destruct (handler_raises m).
+  - (* delivered, the handler raises, the 5012 answer is queued on the same connection *)
+    cbv zeta.
+    match goal with |- context [send_message ?x cid ?a] =>
+      pose proof (send_message_frame x cid a) as [F Fw]; pose proof (send_message_out x cid a) as O;
+      destruct (send_message x cid a) as [n2 o] end.
+    cbn [fst snd] in *. subst o.
+    split; [eapply frame0_trans; [|exact F]; apply frame0_same; reflexivity|].
+    split; [constructor; [exact I|constructor; [exact I|constructor]]|].
+    intros h k H. apply Fw in H. cbn [n_peer_waiting set_waiting] in H. apply pw_has_add in H.
+    destruct H as [H|[_ ->]]; [left; exact H|]. right. exists i, m. split; [left; reflexivity|].
+    split; [left; reflexivity|reflexivity].
+  - split; [apply frame0_same; reflexivity|]. split; [constructor; [exact I|constructor]|].
+    cbn [fst snd n_peer_waiting set_waiting]. intros h k H. apply pw_has_add in H.
+    destruct H as [H|[_ ->]]; [left; exact H|]. right. exists i, m. split; [left; reflexivity|].
+    split; [left; reflexivity|reflexivity].
 Qed.
 
 Lemma receive_message_d n cid m : dres [m] n (receive_message n cid m).
@@ -2255,6 +2328,18 @@ Example ex_C09_entry_from_delivery :
   /\ n_peer_waiting (fst (recv_app_request ex_node 0 ex_req_in)) = [("p1", [(5, 9); (77, 88)])].
 Proof. vm_compute. split; [right; right; left; reflexivity|repeat split]. Qed.
 
+(* C09_raise_leaves_no_entry: the same request with a raising handler is delivered and answered 5012; no pair stays *)
+Definition ex_req_raise : msg :=
+  {| m_cmd := App 272; m_req := true; m_p := true; m_e := false; m_t := false; m_app := 1; m_hbh := 77; m_e2e := 88;
+     m_origin := Present "p1"; m_drealm := Present "r"; m_result := Absent; m_missing := []; m_has_failed_avp_slot := true;
+     m_auth := []; m_acct := []; m_tag := TAG_HANDLER_RAISES |}.
+Example ex_C09_raise_leaves_no_entry :
+  handler_raises ex_req_raise = true /\ handler_raises ex_req_in = false
+  /\ snd (recv_app_request ex_node 0 ex_req_raise) = [ODeliver 0 ex_req_raise; OQueue 0 (answer_of ex_req_raise (Some 5012) [])]
+  /\ n_peer_waiting (fst (recv_app_request ex_node 0 ex_req_raise)) = [("p1", [(5, 9)])]
+  /\ n_peer_waiting (fst (step ex_node [] (ERecv 0 [ex_req_raise]))) = [("p1", [(5, 9)])].
+Proof. vm_compute. repeat split. Qed.
+
 (* C09_gone_is_error: an answer nobody waits for *)
 Example ex_C09_gone_is_error :
   (forall h l, List.In (h, l) (n_peer_waiting ex_node) -> mem_zz (o_hbh ex_req_out, o_e2e ex_req_out) l = false)
@@ -2359,6 +2444,8 @@ Print Assumptions C09_to_requester.
 Print Assumptions C09_to_requester_conn.
 Print Assumptions C09_entry_from_delivery.
 Print Assumptions C09_entry_host.
+Print Assumptions C09_raise_leaves_no_entry.
+Print Assumptions pw_has_remove_add.
 Print Assumptions C09_gone_is_error.
 Print Assumptions C09_second_fails.
 Print Assumptions C09_second_is_error.
